@@ -1,5 +1,6 @@
 import PdfModel.Model.Lexer
 import PdfModel.Model.StrLexer
+import PdfModel.Model.OffsetsConcrete
 
 /-!
   Shift lemmas for the lexer models (`Model/Lexer.lean`, `Model/StrLexer.lean`): running a lexer function
@@ -10,13 +11,6 @@ import PdfModel.Model.StrLexer
 -/
 
 namespace PdfLex
-
-/-- map over the value of an outcome -/
-def omap {α β : Type} (f : α → β) : Out α → Out β
-  | .ok a => .ok (f a)
-  | .err => .err
-  | .panic => .panic
-  | .oof => .oof
 
 @[simp] theorem omap_ok {α β : Type} (f : α → β) (a : α) : omap f (.ok a) = .ok (f a) := rfl
 @[simp] theorem omap_err {α β : Type} (f : α → β) : omap f (.err : Out α) = .err := rfl
